@@ -169,9 +169,9 @@ Qed.
    bin/gen-limbs) on every run; the theorems below are about that generated
    code: no int64 operation can wrap for any byte inputs, the limbs of the
    result are congruent to a*b+c modulo L, lie in [0,L), and each limb is in
-   range. (The byte unpacking/packing identities that would turn this into a
-   statement about the 32 output bytes are not proved: they are covered by the
-   translation validation and the limb correspondence of every run.) *)
+   range. The byte unpacking/packing identities that turn this into a
+   statement about the 32 output BYTES are proved further below
+   (C02_scMulAdd_bytes etc., Limb/LimbBits.v, Limb/LimbBytes.v). *)
 From Coq Require Import String.
 From Kyber Require Import Generated.ScalarLimbs Limb.LimbSem Limb.LimbBounds Limb.LimbPoly Limb.LimbGen Limb.LimbValue Limb.LimbGenValue.
 
@@ -211,3 +211,86 @@ Proof.
   split; [exact prime_bn254_r|]. split; [exact prime_bls12381_r|exact prime_q61].
 Qed.
 Print Assumptions C02_group_orders_prime.
+
+(* ---- byte level: the generated code, from input BYTES to output BYTES.
+   LimbBits.v is a reflective bit-slice analysis (proved sound once) that is run on
+   the generated programs: the load3/load4/shift/mask prologue yields exactly the
+   radix-2^21 digits of the little-endian input value, and the 32 stored bytes
+   byte((s_i >> k) | (s_(i+1) << m)) are exactly the little-endian encoding of the
+   final limbs. Together with no-overflow, congruence and canonical range above:
+   for ALL byte inputs the Go-semantics function returns the canonical 32-byte
+   little-endian encoding of (a*b+c) mod L, etc. *)
+From Kyber Require Limb.LimbBits Limb.LimbBytes.
+
+Theorem C02_scMulAdd_bytes : forall a b c, bytes a -> bytes b -> bytes c ->
+  List.length a = 32%nat -> List.length b = 32%nat -> List.length c = 32%nat ->
+  le_decode (scMulAdd a b c) = (le_decode a * le_decode b + le_decode c) mod Lq /\
+  List.length (scMulAdd a b c) = 32%nat /\ bytes (scMulAdd a b c).
+Proof. exact LimbBytes.scMulAdd_bytes. Qed.
+Print Assumptions C02_scMulAdd_bytes.
+
+Theorem C02_scMul_bytes : forall a b, bytes a -> bytes b ->
+  List.length a = 32%nat -> List.length b = 32%nat ->
+  le_decode (scMul a b) = (le_decode a * le_decode b) mod Lq /\
+  List.length (scMul a b) = 32%nat /\ bytes (scMul a b).
+Proof. exact LimbBytes.scMul_bytes. Qed.
+Print Assumptions C02_scMul_bytes.
+
+Theorem C02_scAdd_bytes : forall a c, bytes a -> bytes c ->
+  List.length a = 32%nat -> List.length c = 32%nat ->
+  le_decode (scAdd a c) = (le_decode a + le_decode c) mod Lq /\
+  List.length (scAdd a c) = 32%nat /\ bytes (scAdd a c).
+Proof. exact LimbBytes.scAdd_bytes. Qed.
+Print Assumptions C02_scAdd_bytes.
+
+Theorem C02_scSub_bytes : forall a c, bytes a -> bytes c ->
+  List.length a = 32%nat -> List.length c = 32%nat ->
+  le_decode (scSub a c) = (le_decode a - le_decode c) mod Lq /\
+  List.length (scSub a c) = 32%nat /\ bytes (scSub a c).
+Proof. exact LimbBytes.scSub_bytes. Qed.
+Print Assumptions C02_scSub_bytes.
+
+Theorem C02_scReduce_bytes : forall s, bytes s -> List.length s = 64%nat ->
+  le_decode (scReduce s) = le_decode s mod Lq /\
+  List.length (scReduce s) = 32%nat /\ bytes (scReduce s).
+Proof. exact LimbBytes.scReduce_bytes. Qed.
+Print Assumptions C02_scReduce_bytes.
+
+(* the two ends separately: unpacking (input bytes -> loaded limbs) and packing
+   (final limbs -> output bytes) *)
+Theorem C02_scMulAdd_unpack : forall a b c, bytes a -> bytes b -> bytes c ->
+  List.length a = 32%nat -> List.length b = 32%nat -> List.length c = 32%nat ->
+  wval 1 (final prog_scMulAdd [a; b; c]) (vars names_scMulAdd A12) = le_decode a /\
+  wval 1 (final prog_scMulAdd [a; b; c]) (vars names_scMulAdd B12) = le_decode b /\
+  wval 1 (final prog_scMulAdd [a; b; c]) (vars names_scMulAdd C12) = le_decode c.
+Proof. exact LimbBytes.scMulAdd_unpack. Qed.
+Print Assumptions C02_scMulAdd_unpack.
+
+Theorem C02_scReduce_unpack : forall s, bytes s -> List.length s = 64%nat ->
+  wval 1 (exec noi [s] (firstn (load_len (p_code prog_scReduce)) (p_code prog_scReduce))
+               (init prog_scReduce)) (vars names_scReduce S24) = le_decode s.
+Proof. exact LimbBytes.scReduce_unpack. Qed.
+Print Assumptions C02_scReduce_unpack.
+
+Theorem C02_scMulAdd_pack : forall a b c, bytes a -> bytes b -> bytes c ->
+  le_decode (scMulAdd a b c) = wval 1 (final prog_scMulAdd [a; b; c]) (vars names_scMulAdd S12) /\
+  List.length (scMulAdd a b c) = 32%nat /\ bytes (scMulAdd a b c).
+Proof. exact LimbBytes.scMulAdd_pack. Qed.
+Print Assumptions C02_scMulAdd_pack.
+
+(* L of the limb theorems is the Ed25519 group order of the scalar model, and the
+   byte theorems are not vacuous: a concrete instance, computed *)
+Example C02_bytes_nonvacuous :
+  Lq = q_ed25519 /\
+  let a := map Z.of_nat (seq 1 32) in let b := repeat 255 32 in let c := map Z.of_nat (seq 200 32) in
+  bytes a /\ bytes b /\ bytes c /\ List.length a = 32%nat /\ List.length b = 32%nat /\ List.length c = 32%nat /\
+  le_decode (scMulAdd a b c) = (le_decode a * le_decode b + le_decode c) mod q_ed25519 /\
+  le_decode (scSub a b) = (le_decode a - le_decode b) mod q_ed25519 /\
+  le_decode (scReduce (a ++ b)) = le_decode (a ++ b) mod q_ed25519.
+Proof.
+  split; [reflexivity|]. cbv zeta.
+  split; [apply LimbBytes.bytes_of_check; reflexivity|].
+  split; [apply LimbBytes.bytes_of_check; reflexivity|].
+  split; [apply LimbBytes.bytes_of_check; reflexivity|].
+  vm_compute. repeat split; reflexivity.
+Qed.
